@@ -91,6 +91,31 @@ func genC02(c *Ctx) {
 			}
 		}
 	}
+	// (a'') a bare provider function as the source (no lifecycle elements), slow to return after cancellation, the same
+	//       stream value materialised again: the reader of the first materialisation must have left the provider
+	//       function before the terminal returns, otherwise the next reader meets it there
+	//       (`slowret`: the cancelled Emit call stays inside the provider until the environment lets it go; the next
+	//       materialisation starts as soon as the terminal has returned and everything left is blocked).  The same with
+	//       an ordinary provider (Open/Close): there the late reader would also Close under the next one's Emit.
+	for _, op := range []string{"cmap", "buf", "nest", "ccons", "pipe"} {
+		for _, bare := range []string{" bare=1", ""} {
+			for n := 2; n <= 4; n++ {
+				for park := 1; park < n; park++ {
+					ends := []string{" limit=1", " cf=1", " first=1", " cancel=1"}
+					if op == "ccons" {
+						ends = []string{" mf=0", " cancel=1"}
+					}
+					if op == "pipe" {
+						// the consumer returns after the chunks of `park` elements ("[", v, ",", v, ...) were read
+						ends = []string{fmt.Sprintf(" reads=%d", 2*park), " cancel=1 reads=-1"}
+					}
+					for _, e := range ends {
+						emit(true, fmt.Sprintf("%s c=%d n=%d size=3 sync=1 mg=0 park=%d%s%s slowret=150 rep=%d script=-", op, 1+n%2, n+6, park, e, bare, 2+n%2))
+					}
+				}
+			}
+		}
+	}
 	// (b) gated callbacks, every wrapper, scripted in quiescent states (seeded random scripts)
 	nr := c.Pick(500, 6000)
 	ops := []string{"cmap", "cmap", "ccons", "buf", "nest", "pipe"}
